@@ -3,6 +3,7 @@ import Usual.C07.AATree
 /-! Model driver for C07 (AA-tree).  Line protocol, see harness/C07/h.c:
 
     ins K | rem K | find K | walk in|pre|post | destroy | count        (K: -?[0-9]{1,18})
+    reins K                      (insert K again with the node already linked for K; nothing if absent)
     perms n ilo ihi jlo jhi      (range-hash over insertion order × removal order of 1..n)
 
 Mutating ops answer
@@ -91,6 +92,17 @@ def doOp (s : State K) (o : Op K) : State K × String :=
   | .count, .num n => (s'', s!"c={n}")
   | _, _ => (s'', "model-error")
 
+/-- `reins k`: the harness calls aatree_insert again with the node object already linked for
+    `k` (nothing if `k` is absent).  Nodes are identified with keys in the model, so this is the
+    model's insert of a present key. -/
+def doReins (s : State K) (k : K) : State K × String × String :=
+  match search cmpK s.root k with
+  | none => (s, mutObs "reins=0" s [], showShape s.root)
+  | some _ =>
+    let (s', _) := step cmpK s (.ins k)
+    let s'' : State K := { s' with log := [] }
+    (s'', mutObs "reins=1" s'' s'.log, showShape s''.root)
+
 /-! ### range-hash protocol: `perms n ilo ihi jlo jhi` -/
 
 def fnvStr (h : UInt64) (s : String) : UInt64 :=
@@ -123,11 +135,16 @@ def hashOp (acc : State K × UInt64 × UInt64) (o : Op K) : State K × UInt64 ×
     | _, _ => "rem"
   (s'', fnvStr (fnvStr ho (mutObs r s'' rel)) "\n", fnvStr (fnvStr hi (showShape s''.root)) "\n")
 
-/-- hash stream of `perms`: for each insertion order the n insertion lines once, then for each
+/-- hash stream of `perms`: for each insertion order the n insertion lines and the n lines
+    `reins 1` .. `reins n` once, then for each
     removal order the n removal lines (each removal order starts from the state after the inserts) -/
 def permsRow (n jlo jhi : Nat) (h : UInt64 × UInt64) (i : Nat) : UInt64 × UInt64 :=
   let insOps : List (Op K) := (nthPerm n i).map (fun k => Op.ins (Int.ofNat k))
   let (si, ho, hi) := insOps.foldl hashOp ((init : State K), h.1, h.2)
+  let (si, ho, hi) := (List.range n).foldl (fun (acc : State K × UInt64 × UInt64) t =>
+    let (s, ho, hi) := acc
+    let (s', o, i) := doReins s (Int.ofNat (t + 1))
+    (s', fnvStr (fnvStr ho o) "\n", fnvStr (fnvStr hi i) "\n")) (si, ho, hi)
   (List.range (jhi - jlo)).foldl (fun h dj =>
     let remOps : List (Op K) := (nthPerm n (jlo + dj)).map (fun k => Op.rem (Int.ofNat k))
     let (_, ho, hi) := remOps.foldl hashOp (si, h.1, h.2)
@@ -158,6 +175,9 @@ def stepLine (s : State K) (line : String) : State K × String :=
     | none => (s, "bad-op")
   | ["rem", k] => match parseKey k with
     | some k => doOp s (.rem k)
+    | none => (s, "bad-op")
+  | ["reins", k] => match parseKey k with
+    | some k => let (s', o, i) := doReins s k; (s', s!"{o} ## {i}")
     | none => (s, "bad-op")
   | ["find", k] => match parseKey k with
     | some k => doOp s (.find k)
